@@ -80,11 +80,11 @@ type c15Op struct {
 	Height      int64  `json:"height"`       // announced / requested height
 	ServeHeight int64  `json:"serve_height"` // header height of the served block (== Height for well-behaved sources)
 	TxSet       int    `json:"txset"`        // index into the pool of transaction sets (0 = no transactions)
-	InWindow    bool   `json:"in_window"` // what the node treats as inside its window (a disabled window: everything)
-	Old         bool   `json:"old"`       // block time far outside the default storage window
-	Edge        bool   `json:"edge"`      // block time in the last hour of the storage window (still inside: in_window is true)
-	HashOK      bool   `json:"hash_ok"`   // xhash: the served block is the one whose hash was requested
-	Consistent  bool   `json:"consistent"` // header.DataHash commits to the square
+	InWindow    bool   `json:"in_window"`    // what the node treats as inside its window (a disabled window: everything)
+	Old         bool   `json:"old"`          // block time far outside the default storage window
+	Edge        bool   `json:"edge"`         // block time in the last hour of the storage window (still inside: in_window is true)
+	HashOK      bool   `json:"hash_ok"`      // xhash: the served block is the one whose hash was requested
+	Consistent  bool   `json:"consistent"`   // header.DataHash commits to the square
 	ChainOK     bool   `json:"chain_ok"`
 	AppVersion  uint64 `json:"app_version"` // 0 makes da.ConstructEDS fail
 	// scripted outcomes
@@ -100,7 +100,7 @@ type c15Op struct {
 type c15History struct {
 	Archival bool    `json:"archival"`
 	Sources  int     `json:"sources"`
-	ViaStart bool    `json:"via_start"` // events go through Listener.Start / SubscribeNewBlockEvent instead of direct calls
+	ViaStart bool    `json:"via_start"`       // events go through Listener.Start / SubscribeNewBlockEvent instead of direct calls
 	WinOff   bool    `json:"window_disabled"` // core components run with WithAvailabilityWindow(0): the window is disabled, every block counts as inside
 	Ops      []c15Op `json:"ops"`
 }
@@ -228,7 +228,9 @@ func (s *c15Source) script(h int64) *c15Op {
 	return s.byH[h]
 }
 
-func (s *c15Source) SubscribeNewBlockEvent(context.Context) (chan BlockEvent, error) { return s.ch, nil }
+func (s *c15Source) SubscribeNewBlockEvent(context.Context) (chan BlockEvent, error) {
+	return s.ch, nil
+}
 
 func (s *c15Source) GetSignedBlock(_ context.Context, height int64) (*SignedBlock, error) {
 	if height >= c15MarkerBase {
@@ -428,19 +430,19 @@ func (c *c15Client) BlockByHeight(_ context.Context, _ *coregrpc.BlockByHeightRe
 // ---------------------------------------------------------------- one node
 
 type c15Node struct {
-	w        *c15World
-	dir      string
-	st       *store.Store
-	cl       *Listener
-	ms       *MultiSource
-	srcs     []*c15Source
-	bc       *c15Bcast
-	hashes   [][2]uint64 // (height, data hash atom)
-	fa       *full.ShareAvailability
-	getter   *c15Getter
-	ex       *Exchange
-	client   *c15Client
-	archival bool
+	w         *c15World
+	dir       string
+	st        *store.Store
+	cl        *Listener
+	ms        *MultiSource
+	srcs      []*c15Source
+	bc        *c15Bcast
+	hashes    [][2]uint64 // (height, data hash atom)
+	fa        *full.ShareAvailability
+	getter    *c15Getter
+	ex        *Exchange
+	client    *c15Client
+	archival  bool
 	hashAsked []byte // the hash of the last successful by-hash request
 }
 
@@ -602,7 +604,9 @@ func (n *c15Node) runCore(op *c15Op, crashed *bool) {
 		undo = n.blockStore(n.w.pool[op.TxSet])
 	}
 	var err error
-	p := zv.Recover(func() { err = n.cl.handleNewBlockEvent(ctx, BlockEvent{Height: op.Height, addr: "src-" + strconv.Itoa(op.Src)}) })
+	p := zv.Recover(func() {
+		err = n.cl.handleNewBlockEvent(ctx, BlockEvent{Height: op.Height, addr: "src-" + strconv.Itoa(op.Src)})
+	})
 	undo()
 	src.mu.Lock()
 	src.cur = nil
